@@ -30,11 +30,34 @@ import (
 	"time"
 )
 
-const (
-	verifDir = "/verif"
-	repoDir  = "/repo"
-	goBin    = "/opt/veriftools/go1.26.8/bin"
+const goBin = "/opt/veriftools/go1.26.8/bin"
+
+// verifDir is /verif unless VERIF_DIR names another copy of it (background sweeps
+// started from a snapshot of /verif must not write into /verif's evidence);
+// repoDir is /repo unless VERIF_REPO names a scratch worktree.
+var (
+	verifDir = envStr("VERIF_DIR", "/verif")
+	repoDir  = envStr("VERIF_REPO", "/repo")
 )
+
+// outDir is where evidence and replay files go: the verif directory, except when a
+// scratch worktree is being checked (sensitivity experiments), whose results must
+// not replace the evidence of /repo.
+func outDir() string {
+	if repoDir != "/repo" {
+		d := filepath.Join(verifDir, ".build", "scratch-out", filepath.Base(repoDir))
+		os.MkdirAll(d, 0o755)
+		return d
+	}
+	return verifDir
+}
+
+func envStr(name, def string) string {
+	if v := os.Getenv(name); v != "" {
+		return v
+	}
+	return def
+}
 
 func die(code int, f string, a ...any) {
 	fmt.Fprintf(os.Stderr, "orch: "+f+"\n", a...)
@@ -158,6 +181,18 @@ func ensureBuild(race bool) (string, string) {
 		die(2, "instrumenting /repo failed (does the tree compile?):\n%s", out)
 	}
 	args := []string{"test", "-c", "-tags", "verif", "-overlay", filepath.Join(rwOut, "overlay.json"), "-o", want}
+	if repoDir != "/repo" {
+		// a scratch worktree instead of /repo: same module file with the replace directive redirected
+		mod, err := os.ReadFile(filepath.Join(simDir, "go.mod"))
+		if err != nil {
+			die(2, "%v", err)
+		}
+		sum, _ := os.ReadFile(filepath.Join(simDir, "go.sum"))
+		alt := filepath.Join(dir, "alt.mod")
+		os.WriteFile(alt, []byte(strings.Replace(string(mod), "=> /repo", "=> "+repoDir, 1)), 0o644)
+		os.WriteFile(filepath.Join(dir, "alt.sum"), sum, 0o644)
+		args = append(args, "-modfile", alt)
+	}
 	if race {
 		args = append(args, "-race")
 	}
@@ -378,7 +413,7 @@ func check(id, tier string) int {
 	os.RemoveAll(jobsDir)
 	os.MkdirAll(jobsDir, 0o755)
 	defer os.RemoveAll(jobsDir)
-	replayDir := filepath.Join(verifDir, "replays")
+	replayDir := filepath.Join(outDir(), "replays")
 	knownPath := filepath.Join(verifDir, "known_findings.json")
 	known := loadKnown()
 
@@ -649,9 +684,9 @@ func writeEvidence(id, tier string, seed uint64, pc propCfg, t *workerOut, nviol
 		"wall_s":      wall,
 		"violations":  nviol,
 	}
-	os.MkdirAll(filepath.Join(verifDir, "evidence"), 0o755)
+	os.MkdirAll(filepath.Join(outDir(), "evidence"), 0o755)
 	b, _ := json.MarshalIndent(ev, "", " ")
-	if err := os.WriteFile(filepath.Join(verifDir, "evidence", id+".json"), b, 0o644); err != nil {
+	if err := os.WriteFile(filepath.Join(outDir(), "evidence", id+".json"), b, 0o644); err != nil {
 		die(2, "evidence: %v", err)
 	}
 }
